@@ -136,3 +136,71 @@ PROPS["C10"] = dict(
         seeded("unit", "hdr", "^TestC10Unit$", 6000 if tier == "quick" else 40000, 1 if tier == "quick" else 8, timeout=1800),
     ],
 )
+
+PROPS["C14"] = dict(
+    title="RTP receiver: ordered, de-duplicated delivery and exact loss accounting",
+    pkg="unit",
+    rule=("rapid-generated arrival histories (<=400 packets; thorough: every one of the 65536 starting sequence numbers) for buffer sizes 2^1..2^8, "
+          "reliable and unreliable mode, built by construction: bounded displacement (an element is overtaken only by elements fewer than "
+          "BufferSize ahead), loss bursts (1..30000), duplicates at 0..BufferSize+2 distance, sender restarts, in-order segments with jumps. "
+          "Oracles: differential against a map-based reference model; delivered packets are input packets, each at most once, strictly "
+          "increasing mod 2^16 except at a model-detected restart; pure displacement histories deliver everything with zero loss; sum of "
+          "reported losses == sequence numbers skipped between consecutive deliveries; Stats() == history; restart followed within BufferSize+1 "
+          "packets; RTCP receiver reports (extended highest sequence number, cumulative lost, fraction lost) taken at generated points with the "
+          "report goroutine parked in the callback. Non-trivial: >=1 reorder and >=1 loss or duplicate, or the history crosses the 16-bit wrap. "
+          "Distinct by case hash."),
+    assumptions=[
+        "the report goroutine is frozen by blocking WritePacketRTCP, so each report covers exactly the packets fed since the previous one",
+        "loss bursts >= 2^15 are outside RFC 3550's resolvable range and outside the generator",
+    ],
+    jobs=lambda tier: [
+        seeded("recv", "unit", "^TestC14$", 750 if tier == "quick" else 8000, 8 if tier == "quick" else 16, timeout=1800),
+    ] + ([seeded("allstarts", "unit", "^TestC14AllStarts$", 6, 16, timeout=3400)] if tier == "thorough" else []),
+)
+
+PROPS["C15"] = dict(
+    title="Timestamps: 64-bit PTS continuation and NTP mapping",
+    pkg="unit",
+    rule=("(pts) 1..3 tracks with clock rates from the formats and arbitrary 1..10^6, initial timestamps near 0 / 2^32 / anywhere, up to 200 steps "
+          "per track with |step| < 2^31 (forward, B-frame-like backward, +-(2^31-1), 2^29..2^30 so 2^32 is crossed repeatedly), later tracks "
+          "starting later and/or with leading packets without PTS==DTS: PTS_k-PTS_0 == T_k-T_0 exactly against the generator's own 64-bit "
+          "timeline; a late track is placed in [rescale(leader PTS), +elapsed*rate+2]; (ntp) rtpsender with an injected clock produces sender "
+          "reports at generated points (report goroutine parked in the callback, microseconds to hours after the last packet), rtpreceiver maps "
+          "timestamps back: within one tick + 4 ns of the time the writer attached; (ntpcodec) instants 1970..2036 with nanoseconds: "
+          "Decode(Encode(t)) within 1 ns, Encode(Decode(v)) within 5 fraction units. Non-trivial: pts case crossing 2^32 with >=1 backward "
+          "step; ntp case with >=1 extra report and >=2 probes; every codec instant. Distinct by case hash."),
+    assumptions=[
+        "the package clock of rtptime is not injectable, so the late-track bound is a measured bracket around the calls",
+        "wall-clock instants stay inside NTP era 0 (before 2036-02-07)",
+    ],
+    jobs=lambda tier: [
+        seeded("pts", "unit", "^TestC15PTS$", 5000 if tier == "quick" else 50000, 1 if tier == "quick" else 4, timeout=1800),
+        seeded("ntp", "unit", "^TestC15NTP$", 750 if tier == "quick" else 6000, 4 if tier == "quick" else 8, timeout=1800),
+        seeded("ntpcodec", "unit", "^TestC15NTPCodec$", 2000 if tier == "quick" else 50000, 1 if tier == "quick" else 4, timeout=1800),
+    ],
+)
+
+PROPS["C16"] = dict(
+    title="Outbound write queue: FIFO, bounded, loss only when signalled",
+    pkg="unit",
+    rule=("(ring, exhaustive sub-space) every sequence over {push, pull-if-it-cannot-block, close, reset} of length 1..8 for capacities 1, 2, 4 "
+          "against a slice model (262140 sequences per capacity; a 1/97 sample of them is hashed into the evidence, all are executed); (ring) "
+          "rapid sequences of <=600 operations for capacities 2^0..2^8; (queue) the real async processor with 1..8 concurrent producers of "
+          "uniquely numbered items, one owner goroutine doing Start/Close, capacities 2^0..2^8, GOMAXPROCS in {1,2,4,16}, drawn busy times, "
+          "yields, late Start, Close at a drawn point or after draining, an injected processing error: executed items were accepted, each at "
+          "most once, one at a time, per-producer and real-time FIFO among items accepted before Close was invoked, every accepted item "
+          "executed in drained error-free runs, a refusal implies >= capacity possibly-queued items during the call, nothing executes after "
+          "Close returned or after an error, OnError exactly once, consumer never stuck with work pending (5 s, with goroutine dump), Close "
+          "returns. Non-trivial (queue): >=2 producers and (>=1 refusal or Close overlapping a push). Distinct by case hash. The thorough tier "
+          "repeats the queue part under the race detector."),
+    assumptions=[
+        "invocation/response instants come from one atomic counter; order obligations are derived only from non-overlapping intervals",
+        "Push between Close and Reset is outside the sequential domain (no caller does it); pushes racing with Close carry no ordering obligation",
+        "interleavings are those the Go scheduler produces under the drawn GOMAXPROCS / yields / busy times (sampled, not enumerated)",
+    ],
+    jobs=lambda tier: [
+        seeded("ring-exhaustive", "unit", "^TestC16RingExhaustive$", 1, 1, timeout=900),
+        seeded("ring", "unit", "^TestC16Ring$", 3000 if tier == "quick" else 40000, 1 if tier == "quick" else 4, timeout=1800),
+        seeded("queue", "unit", "^TestC16Queue$", 400 if tier == "quick" else 6000, 8 if tier == "quick" else 16, timeout=1800),
+    ] + ([seeded("queue-race", "unit", "^TestC16Queue$", 1500, 8, race=True, timeout=3000)] if tier == "thorough" else []),
+)
